@@ -38,6 +38,10 @@ def kernels(tier, seed):
     cnt = 0
     # fixed witness of the >> digit rule finding
     add("elastic<33,i32> >>15", "c05::unary<c05::SHR,33,int,15>")
+    # unary minus systematically: every digit count (incl. the full-rep counts 8/16/32/64) x every narrowest type
+    for d in sorted(set(digits + [64])):
+        for c, tn, sg in NARROW:
+            add("elastic<%d,%s> neg" % (d, tn), "c05::unary<c05::NEG,%d,%s,0>" % (d, c))
     while cnt < m:
         d = rng.choice(digits + [64, 100, 126]); ni = rng.randrange(len(NARROW)); c, tn, sg = NARROW[ni]
         op = rng.choice(["NEG", "SHL", "SHR"])
